@@ -21,6 +21,9 @@ import (
 //
 //	purge <keep> <latest> <term-index,…>            → remaining names, ascending
 //	open <eng> | w <n> | backup | restore <k> | end  → (not modelled in Lean; oracle)
+//	xfetch <eng> <n> <extra> <big> <seed>           → two replicas of one log, B at index n, A at n+extra (the extra entries
+//	                                                  overwrite early keys with values of the same length); B fetches A's checkpoint
+//	                                                  into its remote backup dir and restores it (snapshot install) (oracle)
 func init() { register(&Proto{Name: "ckpt", Gen: genCkpt, New: newCkpt}) }
 
 func genCkpt(rng *rand.Rand, tier string, emit func(string)) {
@@ -52,6 +55,19 @@ func genCkpt(rng *rand.Rand, tier string, emit func(string)) {
 			latest = 0
 		}
 		emit(fmt.Sprintf("purge %d %d %s", rng.Intn(5), latest, ns))
+	}
+	// a checkpoint fetched by ANOTHER replica of the same log that is behind (snapshot install): same file names on both
+	// sides, different checkpoint instants
+	nx := 6
+	if tier == "thorough" {
+		nx = 60
+	}
+	for i := 0; i < nx; i++ {
+		big := 0
+		if i%2 == 0 {
+			big = 1 // 1 kB incompressible values and a forced flush: sst files beyond the 256 kB the restore compares
+		}
+		emit(fmt.Sprintf("xfetch %s %d %d %d %d", []string{"pebble", "pebble", "rocksdb"}[i%3], 300+rng.Intn(400), 1+rng.Intn(5), big, rng.Intn(1<<30)))
 	}
 	for s := 0; s < sessions; s++ {
 		eng := []string{"pebble", "rocksdb", "pebble"}[rng.Intn(3)]
@@ -211,6 +227,14 @@ func newCkpt(c *Ctx) func(string) string {
 		case "end":
 			closeDB()
 			return "ok"
+		case "xfetch":
+			if len(f) < 6 {
+				return "bad-op"
+			}
+			n, _ := strconv.Atoi(f[2])
+			extra, _ := strconv.Atoi(f[3])
+			seed, _ := strconv.ParseInt(f[5], 10, 64)
+			return ckptFetch(c, f[1], n, extra, f[4] == "1", seed)
 		}
 		if db == nil {
 			return "err:not-open"
@@ -321,4 +345,132 @@ func newCkpt(c *Ctx) func(string) string {
 		}
 		return "bad-op"
 	}
+}
+
+// ckptFetch: replicas A and B apply the same log; B stops at index n and takes its own checkpoint there, A goes on to
+// n+extra and takes a checkpoint; B fetches A's checkpoint (a plain copy into its remote backup dir, as the node's rsync
+// does) and restores it. B must then hold exactly A's data as of n+extra, and both go on applying the same log.
+func ckptFetch(c *Ctx, eng string, n, extra int, big bool, seed int64) string {
+	dataQuiet()
+	open := func() (*rockredis.RockDB, string, error) {
+		dir, _ := ioutil.TempDir("", "zvh-ckptx")
+		cfg := rockredis.NewRockRedisDBConfig()
+		cfg.DataDir = dir
+		cfg.EngineType = eng
+		cfg.ExpirationPolicy = common.WaitCompact
+		cfg.DataVersion = common.ValueHeaderV1
+		db, err := rockredis.OpenRockDB(cfg)
+		return db, dir, err
+	}
+	a, da, err := open()
+	if err != nil {
+		return "err:open"
+	}
+	defer os.RemoveAll(da)
+	defer a.Close()
+	b, db, err := open()
+	if err != nil {
+		return "err:open"
+	}
+	defer os.RemoveAll(db)
+	defer b.Close()
+	val := func(i int) []byte {
+		if !big {
+			return []byte(fmt.Sprintf("v%06d", i))
+		}
+		r := rand.New(rand.NewSource(seed + int64(i)))
+		v := make([]byte, 1024)
+		r.Read(v)
+		return v
+	}
+	nkeys := n
+	entry := func(d *rockredis.RockDB, i int) {
+		ts := int64(1600000000000000000) + int64(i)*1000
+		k := i
+		if i > n {
+			k = 1 + (i-n-1)*7%nkeys // later entries overwrite EARLY keys, same value length
+		}
+		switch k % 4 {
+		case 0:
+			d.HSet(ts, false, []byte(fmt.Sprintf("t:h%05d", k)), []byte("f"), val(i))
+		case 1:
+			d.Incr(ts, []byte(fmt.Sprintf("t:c%05d", k)))
+		default:
+			d.KVSet(ts, []byte(fmt.Sprintf("t:k%05d", k)), val(i))
+		}
+	}
+	dump := func(d *rockredis.RockDB) string {
+		h := sha256.New()
+		for k := 1; k <= nkeys; k++ {
+			v, _ := d.KVGet([]byte(fmt.Sprintf("t:k%05d", k)))
+			cv, _ := d.KVGet([]byte(fmt.Sprintf("t:c%05d", k)))
+			hv, _ := d.HGet([]byte(fmt.Sprintf("t:h%05d", k)), []byte("f"))
+			fmt.Fprintf(h, "%d:%x:%s:%x;", k, v, cv, hv)
+		}
+		return fmt.Sprintf("%x", h.Sum(nil))[:16]
+	}
+	for i := 1; i <= n; i++ {
+		entry(a, i)
+		entry(b, i)
+	}
+	for i := n + 1; i <= n+extra; i++ {
+		entry(a, i)
+	}
+	if big {
+		a.CompactRange([]byte{0}, []byte{0xff, 0xff})
+		b.CompactRange([]byte{0}, []byte{0xff, 0xff})
+	}
+	if bi := b.Backup(1, uint64(n)); bi != nil {
+		bi.GetResult()
+	}
+	ai := a.Backup(1, uint64(n+extra))
+	if ai == nil {
+		return "err:busy"
+	}
+	if _, err := ai.GetResult(); err != nil {
+		return "err:backup"
+	}
+	want := dump(a)
+	src := filepath.Join(a.GetBackupDir(), rockredis.GetCheckpointDir(1, uint64(n+extra)))
+	dst := filepath.Join(b.GetBackupDirForRemote(), rockredis.GetCheckpointDir(1, uint64(n+extra)))
+	os.MkdirAll(dst, 0755)
+	files, _ := ioutil.ReadDir(src)
+	sameNames := 0
+	for _, fi := range files {
+		bs, err := ioutil.ReadFile(filepath.Join(src, fi.Name()))
+		if err != nil {
+			return "err:copy"
+		}
+		ioutil.WriteFile(filepath.Join(dst, fi.Name()), bs, 0644)
+		if strings.HasSuffix(fi.Name(), ".sst") {
+			if _, err := os.Stat(filepath.Join(b.GetDataDir(), fi.Name())); err == nil {
+				sameNames++
+			}
+		}
+	}
+	if sameNames > 0 {
+		c.Note("ckpt-fetch-same-sst-names")
+	}
+	srcSum := dirSum(src)
+	b.VerifSetLatestSnapIndex(uint64(n + extra))
+	if err := b.RestoreFromRemoteBackup(1, uint64(n+extra)); err != nil {
+		c.Violation("restore-failed", "fetched checkpoint: "+err.Error())
+		return "err:restore"
+	}
+	if got := dump(b); got != want {
+		c.Violation("restore-wrong-state", fmt.Sprintf("xfetch %s n=%d extra=%d big=%v: after installing the checkpoint of index %d fetched from another replica, the data differs from that replica's data at that index", eng, n, extra, big, n+extra))
+	}
+	if got := dirSum(src); got != srcSum {
+		c.Violation("checkpoint-damaged", "the source checkpoint changed while it was fetched / restored")
+	}
+	// both go on with the same log
+	for i := n + extra + 1; i <= n+extra+20; i++ {
+		entry(a, i)
+		entry(b, i)
+	}
+	if dump(a) != dump(b) {
+		c.Violation("restore-wrong-state", fmt.Sprintf("xfetch %s n=%d extra=%d big=%v: the replicas differ after applying 20 more entries of the same log", eng, n, extra, big))
+	}
+	c.Note("ckpt-fetch:" + eng)
+	return "ok"
 }
